@@ -11,7 +11,7 @@ META = dict(
     level="model_checking",
     bounds=dict(
         quick="L1: http_retry_after_classifier on exceptions with status 429 whose Retry-After text is any string of length <= 3 "
-              "over the 17-character alphabet {0-9 + - _ . space x M ARABIC-INDIC-3} (real int(), real parsedate_to_datetime); L2 (unbounded magnitudes): int / float / "
+              "over the 18-character alphabet {0-9 + - _ . space x M ARABIC-INDIC-3 SUPERSCRIPT-2} (real int(), real parsedate_to_datetime); L2 (unbounded magnitudes): int / float / "
               "parsedate_to_datetime / datetime.now replaced by contract stubs: text parses to an UNBOUNDED solver integer "
               "or to a date (fake aware/naive datetime at a solver-real instant) or to garbage, parsedate may raise "
               "ValueError/OverflowError (each kind has a concrete witness string that makes the real function raise it); "
@@ -52,7 +52,7 @@ def _check_witnesses():
 REAL_WITNESS = _check_witnesses()  # at import time, on the real library function
 
 
-ALPHABET = "0123456789+-_. xM\u0663"
+ALPHABET = "0123456789+-_. xM\u0663\u00b2"
 
 
 class E429(Exception):
@@ -266,7 +266,12 @@ def h_l2(sym, params):
             try:
                 r2 = http_retry_after_classifier(e2)
                 ok2, v2 = outcome_ok(r2)
-                if ok2 and not verdict[0].startswith(("int_not_exact", "garbage_hint")):
+                if verdict[0] == "int_not_exact":
+                    exp2 = float(max(n, 0)) if -FLOAT_LIMIT < n < FLOAT_LIMIT else None
+                    if ok2 and (exp2 is None or v2 == exp2):
+                        return None  # the real code parses the witness str(n) correctly: stub artefact
+                    return (verdict[0], f"decimal integer text {real!r:.60} gave {v2!r} on the real code, expected {exp2!r}")
+                if ok2 and verdict[0] != "garbage_hint":
                     return None  # does not reproduce on the real code: stub artefact
             except Exception as x:  # noqa
                 return (verdict[0], verdict[1] + f"; reproduced on the real code with {src}={real!r:.80}: {x!r}")
